@@ -67,6 +67,9 @@ def cases(tier, seed, PROP):
         # the origin's reference re-assigned before the other objects are added; one header object given to two logical files
         for k in range(16 if tier == 'quick' else 300):
             yield {'stratum': 'header-origin-field', 'index': k, 'kind': 'header-origin'}
+        # names that differ only in blanks at their ends ('RPM', 'RPM ', ' RPM'): different names, different identities
+        for k in range(16 if tier == 'quick' else 300):
+            yield {'stratum': 'names-differing-in-blanks', 'index': k, 'kind': 'blank-names'}
         # same-named objects, one of them renamed to a FRESH name (no collision at any moment), then the old name used again
         for k in range(40 if tier == 'quick' else 800):
             yield {'stratum': 'rename-away-then-reuse-name', 'index': k, 'kind': 'rename-reuse'}
@@ -225,6 +228,33 @@ def _build_spec(case, PROP, r):
             sp['ops'].append(dict(gen.channel_op(f'CH{lf}', '<f8', (3,), fill={'kind': 'pos', 'tag': lf + 1}, lf=lf), **sn))
             sp['ops'].append(dict(gen.frame_op(f'FR{lf}', [ci], lf=lf), **sn))
             sp['ops'].append(dict({'op': 'zone', 'name': f'Z{lf}', 'attrs': {}, 'lf': lf}, **sn))
+        return sp
+    if k == 'blank-names':
+        sp = gen.minimal(r.choice([512, 8192]))
+        sp['write'] = {'output_chunk_size': 2 ** 16}
+        t = r.choice(['zone', 'axis', 'long_name', 'no_format', 'tool', 'channel'])
+        stem = r.choice(['RPM', 'Z1', 'x'])
+        forms = r.sample([stem, stem + ' ', ' ' + stem, stem + '  ', ' ' + stem + ' '], r.choice([2, 3, 4]))
+        if r.random() < 0.4:
+            forms.append(forms[0])          # and a true repetition (copy number 1) among them
+        made = []
+        for nm in forms:
+            ops = sp['ops']
+            if t == 'channel':
+                ops.append(gen.channel_op(nm, '<f4', (3,), fill={'kind': 'pos', 'tag': len(ops)}, dataset_name=f'ds-{len(ops)}'))
+                ops.append(gen.frame_op(f'FR-{len(ops)}', [len(ops) - 1]))
+                made.append(len(ops) - 2)
+            else:
+                ops.append({'op': t, 'name': nm, 'attrs': ({'description': f'object {len(ops)}'} if t in ('zone', 'no_format') else {})})
+                made.append(len(ops) - 1)
+                if t == 'no_format':
+                    ops.append(gen.nf_data_op(len(ops) - 1, b'payload of object %d' % (len(ops) - 1)))
+        if t != 'channel':
+            sp['ops'].append({'op': 'group', 'name': 'G', 'attrs': {'object_list': [{'$ref': i} for i in made]}})
+        if t == 'zone':
+            sp['ops'].append({'op': 'parameter', 'name': 'P', 'attrs': {'zones': [{'$ref': i} for i in made], 'values': [float(i) for i in made]}})
+        elif t == 'channel':
+            sp['ops'].append({'op': 'tool', 'name': 'T', 'attrs': {'channels': [{'$ref': i} for i in made]}})
         return sp
     if k == 'rename-reuse':
         sp = gen.minimal(r.choice([512, 8192]))
@@ -612,6 +642,8 @@ def run_case(case, PROP):
         bump('foreign:' + case.get('foreign_what', '?') + (':written' if run.data is not None else ':refused'))
     if case['kind'] == 'header-origin':
         bump('header-origin-field:' + case['how'] + (':written' if run.data is not None else ':refused'))
+    if case['kind'] == 'blank-names' and run.data is not None:
+        bump('names-differing-in-blanks')
     if case['kind'] == 'rename-reuse' and run.data is not None:
         bump('rename-away-then-reuse-name')
     if case['kind'] == 'across-types' and run.data is not None:
